@@ -150,7 +150,7 @@ def Getter.read : Getter → Val → Option GVal
   | .xstrValue, .xstr _ v => some (.text (some v))
   | .coordLat, .coord lat _ => some (.f64 lat)
   | .coordLong, .coord _ lng => some (.f64 lng)
-  | .dateYear, .date d => some (.u32 (d.y % 4294967296).toNat)      -- `date.year() as u32`
+  | .dateYear, .date d => if d.y < 0 then none else some (.u32 d.y.toNat)      -- `u32::try_from(date.year())`
   | .dateMonth, .date d => some (.u32 d.m)
   | .dateDay, .date d => some (.u32 d.d)
   | .timeHour, .time t => some (.u32 t.h)
@@ -488,7 +488,8 @@ def cexec (s : CState) : COp → Except Stop (CState × COk)
     else if timeOk h m sec (1000000 * ms) then .ok (s.alloc (mkTimeVal h m sec (1000000 * ms)))
     else .error (.err .badArgs .null)
   | .mkDate y m d =>
-    if dateOk y m d then .ok (s.alloc (mkDateVal y m d)) else .error (.err .badArgs .null)
+    -- `year < 0` is rejected first: the unsigned year getter could not return it
+    if decide (0 ≤ y) && dateOk y m d then .ok (s.alloc (mkDateVal y m d)) else .error (.err .badArgs .null)
   | .mkUtc date time ext =>
     match utcArgs s date time with
     | .error e => .error e
